@@ -56,6 +56,9 @@ type LoopCase struct {
 	// ShortTimeout: TargetEthTxTimeout = 60 s (12 Minter blocks) instead of a day: batch timeout heights get passed
 	// (they mean nothing on Minter, whose multisig knows no timeout and whose batches the hub never withdraws)
 	ShortTimeout bool `json:"short_timeout,omitempty"`
+	// Window: SignedSignerSetTxsWindow (0 = the default 10000): with a short one, signer sets older than the last executed
+	// one are pruned within a history; sets still waiting for their execution have to stay
+	Window uint64 `json:"ss_window,omitempty"`
 }
 
 func genLoopCase(t *rapid.T) interface{} {
@@ -66,6 +69,7 @@ func genLoopCase(t *rapid.T) interface{} {
 	}
 	c.Prefund = rapid.IntRange(0, 3).Draw(t, "prefund") == 0
 	c.ShortTimeout = rapid.IntRange(0, 2).Draw(t, "shorttimeout") == 0
+	c.Window = rapid.SampledFrom([]uint64{0, 0, 1, 2, 4}).Draw(t, "sswindow")
 	if c.Prefund {
 		// transfers and a batch before anything was observed on Minter
 		c.Ops = append(c.Ops, LoopOp{Kind: "send", U: 0, Amt: 100, Fee: 1}, LoopOp{Kind: "reqbatch"}, LoopOp{Kind: "block"}, LoopOp{Kind: "block"})
@@ -96,6 +100,14 @@ func genLoopCase(t *rapid.T) interface{} {
 			c.Ops = append(c.Ops, LoopOp{Kind: "deposit", U: rapid.IntRange(0, 1).Draw(t, "u"), Amt: rapid.Int64Range(1, 100000).Draw(t, "amt")})
 		default:
 			c.Ops = append(c.Ops, LoopOp{Kind: "mempty", N: rapid.SampledFrom([]int{1, 2, 3, 15, 40}).Draw(t, "n")})
+		}
+		if c.Window > 0 && rapid.IntRange(0, 9).Draw(t, "lag") == 0 {
+			// two signer-set updates queue up while nobody relays, for longer than the window
+			v := rapid.IntRange(0, n-1).Draw(t, "lv")
+			c.Ops = append(c.Ops, LoopOp{Kind: "power", V: v, Pow: 700}, LoopOp{Kind: "block"}, LoopOp{Kind: "power", V: v, Pow: 3}, LoopOp{Kind: "block"})
+			for j := uint64(0); j < c.Window+2; j++ {
+				c.Ops = append(c.Ops, LoopOp{Kind: "block"})
+			}
 		}
 	}
 	return c
@@ -138,6 +150,7 @@ func runLoopCase(ci interface{}, rec *pbt.Rec) *pbt.Failure {
 	if c.ShortTimeout {
 		cfgH.TargetEthTxTimeout = 60000
 	}
+	cfgH.SignerSetWindow = c.Window
 	h := sim.NewHub(cfgH)
 	if c.Prefund {
 		for u := 0; u < 2; u++ {
@@ -599,6 +612,28 @@ func runLoopCase(ci interface{}, rec *pbt.Rec) *pbt.Failure {
 				}
 			}
 		}
+	}
+	// the multisig takes transactions strictly in sequence order: whatever the hub still holds for later must be preceded by
+	// the next one in order - a transaction the hub dropped before its execution blocks everything behind it for good
+	lowest, pending := uint64(0), 0
+	for _, b := range h.Batches("minter") {
+		if b.Sequence >= next {
+			pending++
+			if lowest == 0 || b.Sequence < lowest {
+				lowest = b.Sequence
+			}
+		}
+	}
+	for _, ss := range h.SignerSets("minter") {
+		if ss.Sequence >= next {
+			pending++
+			if lowest == 0 || ss.Sequence < lowest {
+				lowest = ss.Sequence
+			}
+		}
+	}
+	if pending > 0 && lowest != next {
+		return pbt.Failf("sequence-gap-blocks-multisig", "the multisig has executed %d transactions and takes sequence %d next; the hub holds %d later transactions, the lowest with sequence %d, and none with sequence %d: nothing of them can ever be executed (submissions: %+v)", nd.Msig.TxCount, next, pending, lowest, next, tailSubs(subs))
 	}
 	if cw >= nd.Msig.Threshold {
 		// every bonded validator's connector has run at least two full rounds since anything changed, each of them acting as
